@@ -31,6 +31,7 @@ type FuncSpec struct {
 	Decreases []ast.Expr
 	Pure      bool
 	Inline    bool
+	Reads     []string // parameters / receiver fields the body must use ('reads' directive, checked syntactically)
 	Trusted   bool // assumed, not verified (extern / assume)
 	Props     []string
 	Acquires  []string
@@ -633,6 +634,17 @@ func (sp *Specs) parseFile(path string, extern bool) error {
 			ec.Props = props
 			ec.Label = "event:" + r
 			curF.Ensures = append(curF.Ensures, ec)
+		case "reads":
+			// reads p, q.f: the body must (syntactically) use these parameters / receiver fields. For trusted
+			// functions whose contract says "the result is a function of ...": dropping a dependency is noticed.
+			if curF == nil {
+				return fail(fmt.Errorf("reads outside func block"))
+			}
+			for _, it := range strings.Split(rest, ",") {
+				if it = strings.TrimSpace(it); it != "" {
+					curF.Reads = append(curF.Reads, it)
+				}
+			}
 		case "escapes":
 			if curF == nil {
 				return fail(fmt.Errorf("escapes outside func block"))
